@@ -13,5 +13,9 @@ CONSTANTS
   InitStores <- RInit
   Depth = 5
   EndMarker = FALSE
+  SlotKeys <- RSlotKeys
+  Asc <- RAsc
+  Desc <- RDesc
+  Pairs <- RPairs
 INVARIANT Emit
 CHECK_DEADLOCK FALSE
